@@ -205,6 +205,11 @@ def ExecKind.owner : ExecKind → Name
   | .onExit s => s.name
   | .action t => t.source
 
+/-- an object of the statechart -/
+def ObjOf (c : Chart) : Obj → Prop
+  | .state s => s ∈ c.states
+  | .trans t => t ∈ c.transitions
+
 /-- `env'` runs the relabelled statechart, and neither the evaluators nor the listeners can tell -/
 structure EnvR (ρ : Name → Name) (ι : Nat → Nat) (C : σ → σ → Prop) (S : Name → Prop) (env env' : Env σ ω) : Prop where
   ok : RenOK S ρ
@@ -215,12 +220,12 @@ structure EnvR (ρ : Name → Name) (ι : Nat → Nat) (C : σ → σ → Prop) 
   fuel : env'.stabFuel = env.stabFuel
   guard : ∀ st st' t ev, StR ρ C st st' → GoodSt S st → S t.source →
     env'.E.guard st' (t.relabel ρ ι) ev = env.E.guard st t ev
-  cond : ∀ st st' kind obj code ev, StR ρ C st st' → GoodSt S st → S obj.owner →
+  cond : ∀ st st' kind obj code ev, StR ρ C st st' → GoodSt S st → ObjOf env.chart obj →
     env'.E.cond st' kind (obj.ren ρ ι) code ev = env.E.cond st kind obj code ev
   exec : ∀ st st' k ev, StR ρ C st st' → GoodSt S st → S k.owner →
     (env'.E.exec st' (k.ren ρ ι) ev).2 = (env.E.exec st k ev).2 ∧
       C (env.E.exec st k ev).1 (env'.E.exec st' (k.ren ρ ι) ev).1
-  freeze : ∀ a a' obj, C a a' → C (env.E.freeze a obj) (env'.E.freeze a' (obj.ren ρ ι))
+  freeze : ∀ a a' obj, ObjOf env.chart obj → C a a' → C (env.E.freeze a obj) (env'.E.freeze a' (obj.ren ρ ι))
   deliver : ∀ l m m' t w, MetaR ρ m m' → env'.deliver l m' t w = env.deliver l m t w
 
 section Prims
@@ -300,7 +305,7 @@ theorem eqv_raiseAll (sent : List Sent) : EqvM ρ ι C S (fun _ _ => True) (rais
     exact ⟨{ h1 with sentEvents := by simp only [h1.sentEvents] }, ⟨h2.config, h2.memK, h2.memV, h2.entryK, h2.idleK⟩⟩
   · exact List.forall₂_same.2 (fun _ _ => rfl)
 
-theorem eqv_evalConds (kind : CondKind) (obj : Obj) (hobj : S obj.owner) (ev : Option Event) :
+theorem eqv_evalConds (kind : CondKind) (obj : Obj) (hobj : ObjOf env.chart obj) (ev : Option Event) :
     ∀ (codes : List Code) (i : Nat),
       EqvM ρ ι C S (fun _ _ => True) (evalConds env kind obj ev i codes) (evalConds env' kind (obj.ren ρ ι) ev i codes)
   | [], _ => EqvM.pure trivial
@@ -320,7 +325,7 @@ theorem eqv_evalConds (kind : CondKind) (obj : Obj) (hobj : S obj.owner) (ev : O
       | false => exact EqvM.throw (ErrR.kind ρ ι kind obj.id c.src)
       | true => exact eqv_evalConds kind obj hobj ev rest (i + 1)
 
-theorem eqv_evalContract (kind : CondKind) (obj : Obj) (hobj : S obj.owner) (ev : Option Event) :
+theorem eqv_evalContract (kind : CondKind) (obj : Obj) (hobj : ObjOf env.chart obj) (ev : Option Event) :
     EqvM ρ ι C S (fun _ _ => True) (evalContract env kind obj ev) (evalContract env' kind (obj.ren ρ ι) ev) := by
   unfold evalContract
   rw [h.ignore]
@@ -331,7 +336,7 @@ theorem eqv_evalContract (kind : CondKind) (obj : Obj) (hobj : S obj.owner) (ev 
     · split
       · apply EqvM.modify
         intro st st' h1 h2
-        exact ⟨{ h1 with ctx := h.freeze _ _ obj h1.ctx }, ⟨h2.config, h2.memK, h2.memV, h2.entryK, h2.idleK⟩⟩
+        exact ⟨{ h1 with ctx := h.freeze _ _ obj hobj h1.ctx }, ⟨h2.config, h2.memK, h2.memV, h2.entryK, h2.idleK⟩⟩
       · exact EqvM.pure trivial
     · intro _ _ _
       exact eqv_evalConds h kind obj hobj ev _ 0
@@ -442,7 +447,7 @@ theorem mem_assocSet {κ ν : Type} [BEq κ] (k : κ) (v : ν) : ∀ (l : List (
 structure GoodStep (S : Name → Prop) (c : Chart) (m : Micro) : Prop where
   entered : ∀ x ∈ m.entered, S x
   exited : ∀ x ∈ m.exited, S x
-  trans : ∀ t, m.transition = some t → S t.source
+  trans : ∀ t, m.transition = some t → S t.source ∧ t ∈ c.transitions
 
 section Steps
 variable {ρ : Name → Name} {ι : Nat → Nat} {C : σ → σ → Prop} {S : Name → Prop}
@@ -534,7 +539,7 @@ variable {env env' : Env σ ω} (h : EnvR ρ ι C S env env')
 include h
 
 theorem eqv_exitState (cfg0 : List Name) (hcfg : ∀ x ∈ cfg0, S x) (ev : Option Event) (step step' : Micro)
-    (hev : step'.event = step.event) (s : StateDef) (hs : S s.name) :
+    (hev : step'.event = step.event) (s : StateDef) (hs : S s.name) (hmem : s ∈ env.chart.states) :
     EqvM ρ ι C S Eq (exitState env cfg0 step s) (exitState env' (cfg0.map ρ) step' (s.rename ρ)) := by
   unfold exitState
   have hname : (s.rename ρ).name = ρ s.name := rfl
@@ -564,16 +569,17 @@ theorem eqv_exitState (cfg0 : List Name) (hcfg : ∀ x ∈ cfg0, S x) (ev : Opti
       exact filter_ne_map h.ok s.name hs a.config h2.config
     · intro x hx; exact h2.config x (List.mem_filter.1 hx).1
   intro _ _ _
-  apply EqvM.bind (eqv_evalContract h .post (.state s) hs step.event); intro _ _ _
+  apply EqvM.bind (eqv_evalContract h .post (.state s) hmem step.event); intro _ _ _
   apply EqvM.bind (eqv_raiseMeta h (.exited s.name)); intro _ _ _
   exact EqvM.pure rfl
 
-theorem eqv_enterState (step step' : Micro) (hev : step'.event = step.event) (s : StateDef) (hs : S s.name) :
+theorem eqv_enterState (step step' : Micro) (hev : step'.event = step.event) (s : StateDef) (hs : S s.name)
+    (hmem : s ∈ env.chart.states) :
     EqvM ρ ι C S Eq (enterState env step s) (enterState env' step' (s.rename ρ)) := by
   unfold enterState
   have hname : (s.rename ρ).name = ρ s.name := rfl
   simp only [hname, hev]
-  apply EqvM.bind (eqv_evalContract h .pre (.state s) hs step.event); intro _ _ _
+  apply EqvM.bind (eqv_evalContract h .pre (.state s) hmem step.event); intro _ _ _
   apply EqvM.bind (EqvM.emit (.onEntry s.name)); intro _ _ _
   apply EqvM.bind (eqv_runCode h (.onEntry s) hs none); intro sent sent' hsent
   subst hsent
@@ -607,20 +613,21 @@ theorem eqv_enterState (step step' : Micro) (hev : step'.event = step.event) (s 
   apply EqvM.bind (eqv_raiseMeta h (.entered s.name)); intro _ _ _
   exact EqvM.pure rfl
 
-theorem eqv_fireTransition (step step' : Micro) (hev : step'.event = step.event) (t : Trans) (ht : S t.source) :
+theorem eqv_fireTransition (step step' : Micro) (hev : step'.event = step.event) (t : Trans) (ht : S t.source)
+    (hmem : t ∈ env.chart.transitions) :
     EqvM ρ ι C S Eq (fireTransition env step t) (fireTransition env' step' (t.relabel ρ ι)) := by
   unfold fireTransition
   have hid : (t.relabel ρ ι).id = ι t.id := rfl
   have hsrc : (t.relabel ρ ι).source = ρ t.source := rfl
   have htg : (t.relabel ρ ι).target = t.target.map ρ := rfl
   simp only [hid, hsrc, htg, hev]
-  apply EqvM.bind (eqv_evalContract h .pre (.trans t) ht step.event); intro _ _ _
-  apply EqvM.bind (eqv_evalContract h .inv (.trans t) ht step.event); intro _ _ _
+  apply EqvM.bind (eqv_evalContract h .pre (.trans t) hmem step.event); intro _ _ _
+  apply EqvM.bind (eqv_evalContract h .inv (.trans t) hmem step.event); intro _ _ _
   apply EqvM.bind (EqvM.emit (.action t.id step.event)); intro _ _ _
   apply EqvM.bind (eqv_runCode h (.action t) ht step.event); intro sent sent' hsent
   subst hsent
-  apply EqvM.bind (eqv_evalContract h .post (.trans t) ht step.event); intro _ _ _
-  apply EqvM.bind (eqv_evalContract h .inv (.trans t) ht step.event); intro _ _ _
+  apply EqvM.bind (eqv_evalContract h .post (.trans t) hmem step.event); intro _ _ _
+  apply EqvM.bind (eqv_evalContract h .inv (.trans t) hmem step.event); intro _ _ _
   apply EqvM.bind (Rv := fun _ _ => True)
   · apply EqvM.modify
     intro a a' h1 h2
@@ -658,32 +665,32 @@ theorem eqv_applyStep (step : Micro) (hg : GoodStep S env.chart step) :
   have htr : (step.rename ρ ι).transition = step.transition.map (Trans.relabel ρ ι) := rfl
   have hev : (step.rename ρ ι).event = step.event := rfl
   simp only [hent, hexi, htr]
-  apply EqvM.bind (eqv_stateObjs h step.entered hg.entered); intro entered entered' ⟨he, hen, _⟩
-  apply EqvM.bind (eqv_stateObjs h step.exited hg.exited); intro exited exited' ⟨hx, hxn, _⟩
+  apply EqvM.bind (eqv_stateObjs h step.entered hg.entered); intro entered entered' ⟨he, hen, henm⟩
+  apply EqvM.bind (eqv_stateObjs h step.exited hg.exited); intro exited exited' ⟨hx, hxn, hxm⟩
   apply EqvM.bind EqvM.get; intro st0 st0' hst0
   have hS : ∀ (l : List StateDef) (ns : List Name), l.map (·.name) = ns → (∀ n ∈ ns, S n) → ∀ s ∈ l, S s.name := by
     intro l ns e hn s hs
     exact hn _ (e ▸ List.mem_map.2 ⟨s, hs, rfl⟩)
   apply EqvM.bind (Rv := Eq)
   · rw [hst0.1.config, hx]
-    apply eqv_collect (Rg := fun s s' => s' = s.rename ρ ∧ S s.name)
-    · intro s s' ⟨e, hs⟩
+    apply eqv_collect (Rg := fun s s' => s' = s.rename ρ ∧ S s.name ∧ s ∈ env.chart.states)
+    · intro s s' ⟨e, hs, hm⟩
       subst e
-      exact eqv_exitState h st0.config hst0.2.config step.event step _ hev s hs
-    · exact List.forall₂_map_right_iff.2 (List.forall₂_same.2 (fun s hs => ⟨rfl, hS _ _ hxn hg.exited s hs⟩))
+      exact eqv_exitState h st0.config hst0.2.config step.event step _ hev s hs hm
+    · exact List.forall₂_map_right_iff.2 (List.forall₂_same.2 (fun s hs => ⟨rfl, hS _ _ hxn hg.exited s hs, hxm s hs⟩))
   intro s1 s1' e1; subst e1
   apply EqvM.bind (Rv := Eq)
   · cases ht : step.transition with
     | none => exact EqvM.pure rfl
-    | some t => exact eqv_fireTransition h step _ hev t (hg.trans t ht)
+    | some t => exact eqv_fireTransition h step _ hev t (hg.trans t ht).1 (hg.trans t ht).2
   intro s2 s2' e2; subst e2
   apply EqvM.bind (Rv := Eq)
   · rw [he]
-    apply eqv_collect (Rg := fun s s' => s' = s.rename ρ ∧ S s.name)
-    · intro s s' ⟨e, hs⟩
+    apply eqv_collect (Rg := fun s s' => s' = s.rename ρ ∧ S s.name ∧ s ∈ env.chart.states)
+    · intro s s' ⟨e, hs, hm⟩
       subst e
-      exact eqv_enterState h step _ hev s hs
-    · exact List.forall₂_map_right_iff.2 (List.forall₂_same.2 (fun s hs => ⟨rfl, hS _ _ hen hg.entered s hs⟩))
+      exact eqv_enterState h step _ hev s hs hm
+    · exact List.forall₂_map_right_iff.2 (List.forall₂_same.2 (fun s hs => ⟨rfl, hS _ _ hen hg.entered s hs, henm s hs⟩))
   intro s3 s3' e3; subst e3
   apply EqvM.bind (eqv_raiseAll h _); intro _ _ _
   refine EqvM.pure ⟨rfl, ⟨hg.entered, hg.exited, hg.trans⟩⟩
@@ -757,10 +764,10 @@ theorem createStep_good (c : Chart) (hc : NamesIn S c) (cfg : List Name) (ev : O
   have hs : S t.source := hc.transS t ht
   unfold createStep
   cases hg : t.target with
-  | none => exact ⟨by simp, by simp, fun u hu => by simp at hu; rw [← hu]; exact hs⟩
+  | none => exact ⟨by simp, by simp, fun u hu => by simp at hu; rw [← hu]; exact ⟨hs, ht⟩⟩
   | some tg =>
     have htg : S tg := hc.transT t ht tg hg
-    refine ⟨?_, ?_, fun u hu => by simp at hu; rw [← hu]; exact hs⟩
+    refine ⟨?_, ?_, fun u hu => by simp at hu; rw [← hu]; exact ⟨hs, ht⟩⟩
     · intro x hx
       simp only [List.mem_append, List.mem_reverse, List.mem_singleton] at hx
       rcases hx with hx | hx
@@ -1024,9 +1031,9 @@ theorem eqv_finishStep (ms : Option MacroStep) :
     apply EqvM.forEach (Rg := fun n n' => n' = ρ n ∧ S n)
     · intro n n' ⟨e, hn⟩
       subst e
-      apply EqvM.bind (eqv_stateObj h n hn); intro s s' ⟨hs, hname, _⟩
+      apply EqvM.bind (eqv_stateObj h n hn); intro s s' ⟨hs, hname, hmem⟩
       subst hs
-      exact eqv_evalContract h .inv (.state s) (by show S s.name; rw [hname]; exact hn) _
+      exact eqv_evalContract h .inv (.state s) hmem _
     · apply List.forall₂_map_right_iff.2
       apply List.forall₂_same.2
       intro n hn
